@@ -224,6 +224,10 @@ def c05(tier, seed):
     c.cov["bounds"] = {"N": "0..%d" % (4 if tier == "quick" else 6), "fault": "every choice of the single element whose destructor panics, every (front, back), every skip count 0..len+2"}
     c.conform(binary, scns, "iter-faults")
     c.conform(binary, teardown_fault_scripts([1, 2, 3] if tier == "quick" else [1, 2, 3, 4, 5, 8]), "teardown-faults")
+    # model-to-model: the iterator mechanism model's transitions are accepted by the contract; with the
+    # as-found nth / nth_back statement order some are rejected
+    mech_conformance(c, "MC_Iter", "TR_Iter", False)
+    mech_conformance(c, "MC_Iter", "TR_Iter_nth", True)
     if tier != "quick":
         c.neg("MC_Iter", "NEG_Iter_nth")
     c.assumptions += ["single fault: one destructor panics once (a second panic while unwinding aborts the process by Rust's rules and is outside the property)",
